@@ -391,10 +391,25 @@ class Walker:
             exc = "?"
             if st.exc is not None:
                 exc = ast.unparse(st.exc.func if isinstance(st.exc, ast.Call) else st.exc)
+                exc = self.exception_type(exc)
             self.t.raises.append((exc, self.gen, st.lineno))
             return
         if isinstance(st, ast.FunctionDef):
             return self.localdef(st)
+        if isinstance(st, ast.Try) and len(st.handlers) == 1 and st.handlers[0].type is not None and \
+                ast.unparse(st.handlers[0].type) == "KeyError" and len(st.body) == 1 and not st.finalbody:
+            # try: v = D[k]   except KeyError: A   else: B     ==     if k in D: v = D[k]; B   else: A
+            subs = [n for n in ast.walk(st.body[0]) if isinstance(n, ast.Subscript) and isinstance(n.ctx, ast.Load)]
+            calls = [n for n in ast.walk(st.body[0]) if isinstance(n, ast.Call) and not (isinstance(n.func, ast.Name) and n.func.id == "id")]
+            if len(subs) == 1 and not calls and isinstance(st.body[0], (ast.Assign, ast.Expr)):
+                test = ast.Compare(left=subs[0].slice, ops=[ast.In()], comparators=[subs[0].value])
+                eq = ast.If(test=test, body=list(st.body) + list(st.orelse), orelse=list(st.handlers[0].body))
+                for n in ast.walk(eq):
+                    if not hasattr(n, "lineno"):
+                        n.lineno, n.col_offset, n.end_lineno, n.end_col_offset = st.lineno, 0, st.lineno, 0
+                ast.copy_location(eq, st)
+                ast.copy_location(test, st)
+                return self.block([eq])
         if isinstance(st, ast.Try):
             self.t.trys.append(([ast.unparse(h.type) if h.type is not None else "*" for h in st.handlers], self.gen, st.lineno))
             saved = self.gen
@@ -411,6 +426,20 @@ class Walker:
         if isinstance(st, (ast.Import, ast.ImportFrom)):
             return
         self.unsupported(st, f"statement kind {type(st).__name__} is not modelled")
+
+    def exception_type(self, name):
+        """`raise helper(...)` / `raise err` where helper is a nested function (or err a local) that builds the exception:
+        the type of what is raised is the type it constructs."""
+        for n in ast.walk(self.fi.node):
+            if isinstance(n, ast.FunctionDef) and n.name == name and n is not self.fi.node:
+                rets = [r.value for r in ast.walk(n) if isinstance(r, ast.Return) and r.value is not None]
+                types = {ast.unparse(r.func) for r in rets if isinstance(r, ast.Call)}
+                if rets and len(types) == 1 and all(isinstance(r, ast.Call) for r in rets):
+                    return types.pop()
+            if isinstance(n, ast.Assign) and len(n.targets) == 1 and isinstance(n.targets[0], ast.Name) and n.targets[0].id == name and \
+                    isinstance(n.value, ast.Call) and isinstance(n.value.func, ast.Name) and n.value.func.id.endswith(("Error", "Exception")):
+                return n.value.func.id
+        return name
 
     def localdef(self, st):
         body = [s for s in st.body if not (isinstance(s, ast.Expr) and isinstance(s.value, ast.Constant))]
